@@ -11,7 +11,7 @@ from __future__ import annotations
 
 import itertools
 
-from vf.mon import vloop
+from vf.mon import clock, vloop
 from vf.ref import backoff_ref
 
 ID = "C18"
@@ -53,6 +53,8 @@ def check_word(word, max_delay, ctx, case_extra=None) -> None:
     if b.current_delay_sec != 0:
         ctx.violation("C18:strategy:initial-delay", f"fresh strategy reports {b.current_delay_sec}", {"word": "", "max_delay": max_delay})
     for i, op in enumerate(word):
+        if (i + len(word)) % 3 == 0:
+            clock.jump((0.5, 130.0, 7300.0)[(i + max_delay) % 3])  # real time passes between two calls: the sequence decides, not the clock
         if op:
             b.failure()
             n += 1
